@@ -207,11 +207,11 @@ M("c03-path0-from-dst", "C03", "cola/libavoid/connector.cpp",
   "    path[0] = m_src_vert->point;", "    path[0] = m_dst_vert->point;", mention=["ENDPOINTS"])
 
 M("c03-sweep-border-only-crossing-edges", "C03", "cola/libavoid/visibility.cpp",
-  "        if (kPrev && (kPrev != centerInf) &&\n                pointOnLine(kPrev->point, k->point, centerInf->point))\n        {\n            onBorderIDs.insert(k->id.objID);\n        }\n        if (kNext && (kNext != centerInf) &&\n                pointOnLine(kNext->point, k->point, centerInf->point))\n",
-  "        if (kPrev && (kPrev != centerInf) && (vecDir(centerInf->point, xaxis, kPrev->point) == AHEAD) &&\n                pointOnLine(kPrev->point, k->point, centerInf->point))\n        {\n            onBorderIDs.insert(k->id.objID);\n        }\n        if (kNext && (kNext != centerInf) && (vecDir(centerInf->point, xaxis, kNext->point) == AHEAD) &&\n                pointOnLine(kNext->point, k->point, centerInf->point))\n",
+  "        if (kPrev && (kPrev != centerInf) &&\n                pointOnLine(kPrev->point, k->point, centerInf->point))\n        {\n            onBorderIDs.insert(k->id.objID);\n            onBorderVerts[k->id.objID] = k;\n        }\n        if (kNext && (kNext != centerInf) &&\n                pointOnLine(kNext->point, k->point, centerInf->point))\n",
+  "        if (kPrev && (kPrev != centerInf) && (vecDir(centerInf->point, xaxis, kPrev->point) == AHEAD) &&\n                pointOnLine(kPrev->point, k->point, centerInf->point))\n        {\n            onBorderIDs.insert(k->id.objID);\n            onBorderVerts[k->id.objID] = k;\n        }\n        if (kNext && (kNext != centerInf) && (vecDir(centerInf->point, xaxis, kNext->point) == AHEAD) &&\n                pointOnLine(kNext->point, k->point, centerInf->point))\n",
   mention=["SWEEP-BORDER"])
 M("c03-neutral-sweep-border-one-role", "C03", "cola/libavoid/visibility.cpp",
-  "        if (kNext && (kNext != centerInf) &&\n                pointOnLine(kNext->point, k->point, centerInf->point))\n        {\n            onBorderIDs.insert(k->id.objID);\n        }\n",
+  "        if (kNext && (kNext != centerInf) &&\n                pointOnLine(kNext->point, k->point, centerInf->point))\n        {\n            onBorderIDs.insert(k->id.objID);\n            onBorderVerts[k->id.objID] = k;\n        }\n",
   "", expect="silent")
 M("c03-side-line-through-blocked-stretch", "C03", "cola/libavoid/orthogonal.cpp",
   "                    LineSegment *line = segments.insert(\n                            LineSegment(minLimit, minLimitMax, lineX));\n\n                    // Shape corner:\n                    VertInf *vI1 = new VertInf(router, dummyOrthogShapeID,\n                                Point(lineX, minShape));",
@@ -814,3 +814,23 @@ M("c15-queued-end-on-deleted-shape", "C15", "cola/libavoid/router.cpp",
 M("c15-queued-end-only-first-update", "C15", "cola/libavoid/router.cpp",
   "                    if (upd->second.m_anchor_obj == obstacle)\n                    {\n                        upd->second = ConnEnd(obstacle->position());\n                    }",
   "                    if ((upd == act->conns.begin()) && (upd->second.m_anchor_obj == obstacle))\n                    {\n                        upd->second = ConnEnd(obstacle->position());\n                    }", mention=["QUEUED-ENDS-DETACHED"])
+
+# ---------------------------------------------------------------- round f (c01d c05d c18d c15/cluster)
+M("c01-stale-flag-survives-new-solver", "C01", "cola/libvpsc/solve_VPSC.cpp",
+  "        // Likewise a flag left by an earlier solver instance says nothing\n        // about this problem instance.\n        c->unsatisfiable = false;\n", "",
+  mention=["WHO-WRITES", "vpsc::Solver::Solver"])
+MUTANTS.append({"id": "c01-internal-constraints-stay-in-heap", "prop": "C01", "expect": "fire", "mention": ["HEAP-ORDER"], "tu": None, "edits": [
+    {"file": "cola/libvpsc/constraint.cpp", "old": "        l->left->block->timeStamp > l->timeStamp\n        ||l->left->block==l->right->block\n", "new": "        l->left->block->timeStamp > l->timeStamp\n", "count": 1},
+    {"file": "cola/libavoid/vpsc.cpp", "old": "        l->left->block->timeStamp > l->timeStamp\n        ||l->left->block==l->right->block\n", "new": "        l->left->block->timeStamp > l->timeStamp\n", "count": 1}]})
+MUTANTS.append({"id": "c01-fixed-variables-reported-at-desired", "prop": "C01", "expect": "fire", "mention": ["PUBLISH-IS-POSITION"], "tu": None, "edits": [
+    {"file": "cola/libvpsc/solve_VPSC.cpp", "old": "        v->finalPosition=v->position();", "new": "        v->finalPosition=v->fixedDesiredPosition ? v->desiredPosition : v->position();", "count": 1},
+    {"file": "cola/libavoid/vpsc.cpp", "old": "        v->finalPosition=v->position();", "new": "        v->finalPosition=v->fixedDesiredPosition ? v->desiredPosition : v->position();", "count": 1}]})
+M("c05-angle-penalty-on-orthogonal-bends", "C05", "cola/libavoid/makepath.cpp",
+  "            if ((rad > 0) && !isOrthogonal)", "            if (rad > 0)", mention=["COST-FORM", "angle"])
+M("c05-widened-directions-kept", "C05", "cola/libavoid/orthogonal.cpp",
+  "        requestedDirections[i].first->visDirections =\n                requestedDirections[i].second;", "        (void) requestedDirections[i];", mention=["WIDENED-DIRS-TEMPORARY"])
+M("c18-implied-separation-dropped", "C18", "cola/libdialect/constraints.cpp",
+  "    case SepDir::RIGHT:\n        xgt = gt;", "    case SepDir::RIGHT:\n        if (xst == SepType::INEQ && st == SepType::INEQ && xgt == gt && xgap > gap) break;\n        xgt = gt;",
+  mention=["ADDSEP-SEQUENCE"])
+M("c15-delete-cluster-only-unlinks", "C15", "cola/libavoid/router.cpp",
+  "    m_currently_calling_destructors = true;\n    delete cluster;\n    m_currently_calling_destructors = false;\n}", "}", mention=["ROUTER-DELETE-API", "deleteCluster"])
